@@ -56,6 +56,16 @@ type shared struct {
 	maxRSS    int64
 	slowest   time.Duration
 	slowLine  string
+	spent     map[string]time.Duration // where the wall time of the workers went
+}
+
+func (sh *shared) clock(what string, t0 time.Time) {
+	sh.mu.Lock()
+	if sh.spent == nil {
+		sh.spent = map[string]time.Duration{}
+	}
+	sh.spent[what] += time.Since(t0)
+	sh.mu.Unlock()
 }
 
 type world struct {
@@ -162,6 +172,7 @@ func (w *world) timed(key, detail string) bool {
 
 // confirmed replays the current sequence up to the current step alone on a fresh server.
 func (w *world) confirmed(key string) bool {
+	defer w.sh.clock("confirm_runs", time.Now())
 	nw, err := newWorld(w.r, w.sh, w.source, w.seed)
 	if err != nil {
 		return true
@@ -204,6 +215,7 @@ func (w *world) violate(key, detail string) {
 
 // prelude brings a new connection into the start phase of a behaviour (as u1).
 func (w *world) prelude(s, start string) error {
+	defer w.sh.clock("preludes", time.Now())
 	if c := w.conns[s]; c != nil {
 		c.Close()
 	}
@@ -237,6 +249,7 @@ func hashLine(l *sess.Line) string {
 // await sends the line and waits for its completion the patient way: a silent, idle server is given
 // idleWindow, a silent computing server up to busyMax. kind: "" (answered), "silent", "hang".
 func (w *world) await(c *sess.Conn, line *sess.Line, sig string) (sess.Outcome, string, time.Duration) {
+	defer w.sh.clock("waiting_for_completions", time.Now())
 	pid := w.srv.Pid()
 	w.sh.mu.Lock()
 	known := w.sh.silent[sig]
@@ -442,7 +455,13 @@ func (w *world) step(a *sess.Act) (bool, error) {
 		}
 	}
 	if !insync {
-		// the harness gives this connection up: for the server a client that vanished, maybe in the middle of a line
+		// the harness gives this connection up. An unanswered line may have left the server inside a string: end
+		// it first, so that the disconnect is not one more stream cut inside a string (that is a class of its own)
+		if kind == "silent" {
+			if c.Write([]byte("\"\r\n")) == nil {
+				c.Await(time.Second)
+			}
+		}
 		c.Close()
 		if !w.idleAfterClose(sig) {
 			return false, nil
@@ -456,6 +475,7 @@ func (w *world) step(a *sess.Act) (bool, error) {
 
 // probeOthers: every other open session answers NOOP as the model says, whatever this session has sent.
 func (w *world) probeOthers(a *sess.Act, sig, where string) bool {
+	defer w.sh.clock("other_session_probes", time.Now())
 	for t, want := range a.Others {
 		c := w.conns[t]
 		if len(want) == 0 || c == nil || t == a.S {
@@ -505,6 +525,7 @@ func (w *world) crashed(where string) bool {
 
 // restart replaces the server (after a crash, a hang or a bloat the old one says nothing about the next lines).
 func (w *world) restart() {
+	defer w.sh.clock("restart", time.Now())
 	w.stop()
 	w.sh.mu.Lock()
 	w.sh.restarts++
@@ -569,6 +590,7 @@ func (w *world) idleAfterClose(sig string) bool {
 // quickSpin is a cheap look (a quarter of a second) whether the server is burning CPU right now; it only
 // decides whether the full check is worth its time.
 func (w *world) quickSpin() bool {
+	defer w.sh.clock("quick_cpu_looks", time.Now())
 	pid := w.srv.Pid()
 	// a goroutine that spins keeps a thread runnable all the time; an idle server has none most of the time
 	for i := 0; i < 4; i++ {
@@ -586,6 +608,7 @@ func (w *world) quickSpin() bool {
 // spinning measures: does the server keep using CPU time (three consecutive seconds) while no client of the
 // checked connection is there any more?
 func (w *world) spinning() bool {
+	defer w.sh.clock("cpu_measurements", time.Now())
 	pid := w.srv.Pid()
 	w.sh.mu.Lock()
 	w.sh.spinFull++
@@ -655,6 +678,7 @@ func (w *world) spinDetected(cur *suspect, curSig string) {
 
 // isolate replays one suspect alone on a fresh server, closes the connection and measures.
 func (w *world) isolate(c suspect) (spin bool, log []string, pct, rss0, rss1 int64) {
+	defer w.sh.clock("isolation_runs", time.Now())
 	nw, err := newWorld(w.r, w.sh, w.source, c.seed)
 	if err != nil {
 		return false, nil, 0, 0, 0
@@ -963,6 +987,11 @@ func run(r *ev.Run, tier, replay string) {
 	r.Set("peak_rss_mib", sh.maxRSS/1024)
 	r.Set("slowest_answered_line", fmt.Sprintf("%v: %s", sh.slowest.Round(time.Millisecond), sh.slowLine))
 	r.Set("replay_wall_s", time.Since(t0).Seconds())
+	spent := map[string]float64{}
+	for k, v := range sh.spent {
+		spent[k] = v.Seconds()
+	}
+	r.Set("worker_seconds_spent_in", spent)
 	r.Set("exhaustive", false)
 	r.Set("rule", "classes: TLC enumerates exhaustively every sequence of input classes of the configured length from each start phase (NotAuth, Auth, Selected) and the whole graph of the consecutive-error counter, with the acceptable results; bytes: each class occurrence is rendered as one of several concrete byte strings chosen by the seed (VERIF_SEED); evaluations = lines sent; non-trivial = a malformed / odd / cut-off line (not the valid commands in between); distinct = distinct (class, byte string). classes covered and instances tried are reported separately (input_classes_covered, phase_class_pairs_covered, malformed_instances_tried_distinct)")
 	r.Assumptions = []string{
